@@ -231,6 +231,16 @@ def cases(rng, tier):
                     chunks = [body[:cut1], body[cut1:cut2], body[cut2:]]
                     yield _ev(b, "utf8", chunks)
                     yield _stream(rng.choice(["mp_stream", "mp_astream"]), b, "utf8", 324, None, chunks)
+    # forms with exactly as many parts as the documented limit allows (and one fewer)
+    for k in (323, 324):
+        b = b"bd"
+        parts = [M.Part("f%d" % (i % 5), b"v%d" % i) for i in range(k)]
+        body = M.encode_form(b, parts)
+        for chunks in ([body], [body[:777], body[777:]]):
+            yield _stream("mp_stream", b, "utf8", 324, None, chunks)
+            yield _stream("mp_astream", b, "utf8", 324, None, chunks)
+            yield "mp_wsgi_form %s %s" % (enc("multipart/form-data; boundary=bd"), M.enc_chunks(chunks))
+            yield "mp_asgi_form %s %s" % (enc("multipart/form-data; boundary=bd"), M.enc_chunks(chunks))
     # a text field of a few kB handed over byte by byte (thousands of Data events for one field), default limits
     for size in ((1500, 4000) if tier == "quick" else (1500, 4000, 12000)):
         b = b"bd"
